@@ -5,6 +5,7 @@ package c20
 import (
 	"encoding/json"
 	"fmt"
+	"hash/fnv"
 	"regexp"
 	"strconv"
 	"strings"
@@ -230,6 +231,8 @@ func (prop) Generate(r *core.RNG, tier string) []json.RawMessage {
 			}
 		}
 	}
+	// length sweep (added after seeded change C20-h: a fixed-size buffer chosen by the INPUT length): see lengthSweep
+	out = append(out, lengthSweep(sd, tier)...)
 	// the ordered suffix rules: two plain instances of every rule's pattern, then the words of the repository's test tables
 	for _, rule := range rules {
 		for _, c := range sd[rule].rules {
@@ -380,6 +383,80 @@ func (prop) Generate(r *core.RNG, tier string) []json.RawMessage {
 	return out
 }
 
+// lengthSweep: the result of an irregular word can be LONGER than the input (child -> children), so code that sizes a buffer
+// from the input fails only for a narrow band of input lengths.  For every irregular word and replacement of both tables and a
+// few suffix-rule words (whose rewrite grows or shrinks the text): a prefix of EVERY byte length 0..130 that ends at a word
+// boundary, and the prefixes that put the whole input at 252..258, 508..514 and 1020..1026 bytes (around the usual buffer
+// sizes).  The fill and the separator vary with the length so that no length is tied to one separator only in one residue
+// class.  The model is length-agnostic: Run sends 1 in 12 of them (fewer of those longer than 80 bytes) to Coq (chosen by a hash of the input, so that a replay
+// behaves like the run) and decides the others by the property's own sentences on the Go side (returns, same result
+// for 7 calls, prefix kept and word inflected as it is alone).
+var sweepSuffixWords = []string{"quiz", "bus", "matrix", "status", "wolf", "baby", "house", "quizzes", "matrices", "wolves", "babies", "analyses", "news", "hive"}
+
+func sweepPrefix(n int) string {
+	if n <= 0 {
+		return ""
+	}
+	seps := []string{" ", "-", ".", "/", " ", "-"}
+	fills := []string{"x", "Ab", "a1_", "é"}
+	fill := fills[n%len(fills)]
+	var b strings.Builder
+	for b.Len()+len(fill) <= n-1 {
+		b.WriteString(fill)
+	}
+	for b.Len() < n-1 {
+		b.WriteByte('y')
+	}
+	b.WriteString(seps[n%len(seps)])
+	return b.String()
+}
+
+func lengthSweep(sd map[string]*side, tier string) []json.RawMessage {
+	var out []json.RawMessage
+	one := func(rule, w string) {
+		for n := 0; n <= 130; n++ {
+			out = append(out, mkK(rule, sweepPrefix(n), w, "len-sweep"))
+		}
+		for _, b := range []int{256, 512, 1024} {
+			for t := b - 4; t <= b+2; t++ {
+				if n := t - len(w); n > 130 {
+					out = append(out, mkK(rule, sweepPrefix(n), w, "len-sweep"))
+				}
+			}
+		}
+	}
+	for _, rule := range []string{"plural", "singular"} {
+		for _, it := range sd[rule].items {
+			one(rule, it.Word)
+			if tier == "thorough" {
+				one(rule, strings.ToUpper(it.Word))
+				one(rule, strings.ToUpper(it.Word[:1])+it.Word[1:])
+				one(rule, it.Replacement)
+			}
+		}
+		for _, w := range sweepSuffixWords {
+			one(rule, w)
+		}
+	}
+	return out
+}
+
+// sweepSampled: which length-sweep cases are also evaluated in Coq (a function of the input only).
+func sweepSampled(s string) bool {
+	h := fnv.New32a()
+	h.Write([]byte(s))
+	switch n := len(s); { // the model's regexp walk is quadratic in the length of the text: fewer of the long ones
+	case n <= 80:
+		return h.Sum32()%12 == 0
+	case n <= 140:
+		return h.Sum32()%24 == 0
+	case n <= 300:
+		return h.Sum32()%100 == 0
+	default:
+		return h.Sum32()%400 == 0
+	}
+}
+
 func indexOf(l []string, s string) int {
 	for i, x := range l {
 		if x == s {
@@ -511,6 +588,17 @@ func (prop) Run(in json.RawMessage, _ string) core.Result {
 	res.Observed = obs
 	res.Coq = fmt.Sprintf("mk_case %s %s %s %s %s", core.CoqBool(rule == "plural"), core.Hex(p), core.Hex(w),
 		core.CoqOpt(!obs.FullPanic, core.Hex(obs.Full)), core.CoqOpt(!obs.AlonePanic, core.Hex(obs.Alone)))
+
+	if inp.K == "len-sweep" && len(inp.Hist) == 0 && len(res.GoViolations) == 0 && !sweepSampled(rule+"\x00"+s) {
+		// decided on the Go side by the property's own sentences; totality and purity are checked above
+		res.Coq = ""
+		if lw, letters := asciiLowerWord(w); letters && w != "" && (p == "" || !isWord(p[len(p)-1])) {
+			if _, irr := sd[rule].words[lw]; irr && obs.Full != p+obs.Alone {
+				res.GoViolations = append(res.GoViolations, fmt.Sprintf("%s(%q) = %q: the text before the irregular word %q is not preserved or the word is not inflected as it is alone (%q)", rule, s, obs.Full, w, obs.Alone))
+			}
+		}
+		res.Tags = append(res.Tags, "len-sweep=go-side")
+	}
 
 	// classification of the INPUT (harness-side copy of the two regular expressions; tags and class names only)
 	sdr := sd[rule]
